@@ -32,6 +32,10 @@ Record case := {
 Definition env0 : tofile_env := {| e_kernel := []; e_kmax := 1073741824; e_chunk := 1048576 |}.
 Definition env1 : tofile_env := {| e_kernel := [3; 1; 100]; e_kmax := 1073741824; e_chunk := 5 |}.
 
+(* only ExternalTensor.tofile depends on the copy schedule: evaluate the second schedule there *)
+Fixpoint uses_copy_loop (r : rep) : bool :=
+  match r with RExternal _ _ _ _ _ => true | RLazy _ _ i => uses_copy_loop i | _ => false end.
+
 Definition spec_ok (c : case) : bool :=
   match c_logical c with
   | None => true
@@ -55,7 +59,8 @@ Definition agree (c : case) : bool :=
   && res_eqb nl_eqb (r_numpy r) (c_numpy c)
   && res_eqb nl_eqb (r_tobytes r) (c_tobytes c)
   && forallb (fun dr => res_eqb dest_eqb (r_tofile env0 r (fst dr)) (snd dr)
-                        && res_eqb dest_eqb (r_tofile env1 r (fst dr)) (snd dr)) (c_tofile c)
+                        && (if uses_copy_loop r then res_eqb dest_eqb (r_tofile env1 r (fst dr)) (snd dr) else true))
+             (c_tofile c)
   && match c_ser_inner c with
      | None => true
      | Some inner => match serialize inner, r with
@@ -76,3 +81,9 @@ Definition sagree (c : scase) : bool :=
   list_eqb nl_eqb (s_numpy (sc_rep c)) (sc_numpy c) && list_eqb nl_eqb (s_string_data (sc_rep c)) (sc_data c)
   && (s_nbytes (sc_rep c) =? sc_nbytes c).
 Definition mkscase r a b c : scase := {| sc_rep := r; sc_numpy := a; sc_data := b; sc_nbytes := c |}.
+
+(* long file prefixes are written by the harness with a fixed pattern (byte i = (a*i+b) mod 256); the case files
+   name the pattern instead of spelling tens of thousands of bytes *)
+Fixpoint pat_from (a b : N) (n : nat) (i : N) : list N :=
+  match n with O => [] | S k => (a * i + b) mod 256 :: pat_from a b k (N.succ i) end.
+Definition pat (a b len : N) : list N := pat_from a b (N.to_nat len) 0.
